@@ -173,7 +173,7 @@ func (s *Schema) doCompile() error {
 		return s.newDocumentError(errors.ErrRegexUnexpectedStart, 0, content[0])
 	}
 
-	var escaped bool
+	var escaped, closed bool
 
 loop:
 	for i, c := range content[1:] {
@@ -184,6 +184,7 @@ loop:
 		case '/':
 			if !escaped {
 				s.pattern = string(content[1 : i+1])
+				closed = true
 				break loop
 			}
 			escaped = false
@@ -193,7 +194,7 @@ loop:
 		}
 	}
 
-	if s.pattern == "" {
+	if !closed { // "//" is the empty pattern
 		idx := uint(len(content) - 1)
 		return s.newDocumentError(errors.ErrRegexUnexpectedEnd, idx, content[idx])
 	}
